@@ -200,7 +200,7 @@ def pool():
 def close_pool():
     global _POOL
     if _POOL is not None:
-        _POOL.close()
+        _POOL.terminate()   # all results have been consumed on the normal path; on an error path workers may still be spinning
         _POOL.join()
         _POOL = None
 
